@@ -332,10 +332,25 @@ def add_mutations(rng, c, profile):
                     put(t, "sponge_pre", [rf_uniform(rng, p)], "reject")
             if profile in ("c04",) and scheme in ("marlin", "sonic", "ipa"):
                 z = int(c.fields["pt.%d" % op["pt"]][0]) % p
+                bl_all = c.meta.get("bounds_sorted") or []
+                not_enforced = [b for b in range(1, c.meta["s"] + 1) if b not in bl_all]
                 for k in sel:
                     bk = c.fields["bound.%d" % k][0]
                     if bk == "none":
+                        # an unbounded commitment presented under a degree bound
+                        nz = (not c.meta["zero"][k]) or c.fields["hiding.%d" % k][0] != "none"
+                        if scheme == "ipa":
+                            put(t, "comm_mut", [k, "add_bound", rng.randint(1, c.meta["eff_s"])], "reject")
+                        else:
+                            if not_enforced:
+                                put(t, "comm_mut", [k, "add_bound", rng.choice(not_enforced)], "reject")
+                            enf = [b for b in bl_all if b != c.meta["D"]]
+                            if enf:
+                                put(t, "comm_mut", [k, "add_bound", rng.choice(enf)], "reject" if nz and scheme == "sonic" else ("reject" if scheme == "marlin" else "reject?"), "add")
                         continue
+                    if scheme != "ipa" and not_enforced:
+                        # presented under a bound the keys were not trimmed for
+                        put(t, "comm_mut", [k, "relabel_bound", rng.choice(not_enforced)], "reject")
                     coeffs = [int(x) for x in c.fields["poly.%d" % k]]
                     v = sum(co * pow(z, e, p) for e, co in enumerate(coeffs)) % p
                     hid = c.fields["hiding.%d" % k][0] != "none"
